@@ -167,10 +167,19 @@ def structure2dict (p : PhaseRec) : PyTree :=
 
 def noneStr : Str := S "None"
 
+/-- `phase.space_group.number` or the string "None" -/
+def encodeSg (intDt : Nat) : Option Nat → Val
+  | some n => .scalar intDt n
+  | none => .str noneStr
+/-- `phase.point_group.name` or the string "None" -/
+def encodePg : Option Str → Str
+  | some g => g
+  | none => noneStr
+
 def phase2dict (intDt : Nat) (p : PhaseRec) : PyTree :=
   .dict [(kS "name", .leaf (.str p.name)),
-         (kS "space_group", .leaf (match p.sg with | some n => .scalar intDt n | none => .str noneStr)),
-         (kS "point_group", .leaf (.str (match p.pg with | some g => g | none => noneStr))),
+         (kS "space_group", .leaf (encodeSg intDt p.sg)),
+         (kS "point_group", .leaf (.str (encodePg p.pg))),
          (kS "color", .leaf (.str p.color)),
          (kS "structure", structure2dict p)]
 
@@ -181,21 +190,31 @@ def optArr (intDt : Nat) : Option Arr → PyTree
 def reservedData : List Key :=
   [kS "y", kS "x", kS "phi1", kS "Phi", kS "phi2", kS "phase_id", kS "id", kS "is_in_data"]
 
+/-- the fixed datasets of the `data` group, in the writer's order -/
+def reservedItems (e : Derived) (m : MapRec) : List (Key × PyTree) :=
+  [(kS "y", optArr e.intDt m.y), (kS "x", optArr e.intDt m.x), (kS "phi1", .leaf (.arr m.phi1)),
+   (kS "Phi", .leaf (.arr m.phi)), (kS "phi2", .leaf (.arr m.phi2)),
+   (kS "phase_id", .leaf (.arr m.phaseId)), (kS "id", .leaf (.arr e.idArr)),
+   (kS "is_in_data", .leaf (.arr m.inData))]
+
+/-- `crystal_map.prop` as dict items -/
+def propItems (m : MapRec) : List (Key × PyTree) := m.props.map fun p => (Key.s p.name, PyTree.leaf (.arr p.arr))
+
+def phaseItems (intDt : Nat) (phases : List PhaseRec) : List (Key × PyTree) :=
+  phases.map fun p => (Key.n p.id, phase2dict intDt p)
+
+def headerItems (e : Derived) (m : MapRec) : List (Key × PyTree) :=
+  [(kS "grid_type", .leaf (.str (S "square"))),
+   (kS "ny", .leaf (.scalar e.intDt e.ny)), (kS "nx", .leaf (.scalar e.intDt e.nx)),
+   (kS "y_step", .leaf (.scalar e.yStep.1 e.yStep.2)), (kS "x_step", .leaf (.scalar e.xStep.1 e.xStep.2)),
+   (kS "rotations_per_point", .leaf (.scalar e.intDt e.rpp)),
+   (kS "scan_unit", .leaf (.str m.scanUnit)),
+   (kS "phases", .dict (phaseItems e.intDt m.phases))]
+
+/-- `dictionary["data"].update(crystal_map.prop)`: a property called like a fixed dataset replaces it -/
 def crystalmap2dict (e : Derived) (m : MapRec) : PyTree :=
-  .dict [
-    (kS "data", .dict (dictUpdate
-      [(kS "y", optArr e.intDt m.y), (kS "x", optArr e.intDt m.x), (kS "phi1", .leaf (.arr m.phi1)),
-       (kS "Phi", .leaf (.arr m.phi)), (kS "phi2", .leaf (.arr m.phi2)),
-       (kS "phase_id", .leaf (.arr m.phaseId)), (kS "id", .leaf (.arr e.idArr)),
-       (kS "is_in_data", .leaf (.arr m.inData))]
-      (m.props.map fun p => (Key.s p.name, PyTree.leaf (.arr p.arr))))),
-    (kS "header", .dict [
-      (kS "grid_type", .leaf (.str (S "square"))),
-      (kS "ny", .leaf (.scalar e.intDt e.ny)), (kS "nx", .leaf (.scalar e.intDt e.nx)),
-      (kS "y_step", .leaf (.scalar e.yStep.1 e.yStep.2)), (kS "x_step", .leaf (.scalar e.xStep.1 e.xStep.2)),
-      (kS "rotations_per_point", .leaf (.scalar e.intDt e.rpp)),
-      (kS "scan_unit", .leaf (.str m.scanUnit)),
-      (kS "phases", .dict (m.phases.map fun p => (Key.n p.id, phase2dict e.intDt p)))])]
+  .dict [(kS "data", .dict (dictUpdate (reservedItems e m) (propItems m))),
+         (kS "header", .dict (headerItems e m))]
 
 /-- what `file_writer` puts below `/crystal_map`, as h5py presents it afterwards -/
 def write (e : Derived) (m : MapRec) : Option H5 := (writeTree (crystalmap2dict e m)).map storeTree
@@ -254,6 +273,13 @@ def dict2atom (d : PyTree) : Option AtomRec :=
       some (.leaf (.arr u)) => some ⟨el, lb, odt, o, xyz, u⟩
     | _, _, _, _, _ => none
 
+/-- `space_group == "None"` → `None`, else `int(space_group)`; `none`: the code raises -/
+def decodeSg : Val → Option (Option Nat)
+  | .str s => if s = noneStr then some none else none
+  | .scalar _ v => if 0 ≤ v then some (some v.toNat) else none
+  | _ => none
+def decodePg (pgs : Str) : Option Str := if pgs = noneStr then none else some pgs
+
 def dict2phase (t : PhaseTables) (id : Int) (d : PyTree) : Option PhaseRec :=
   match getDict d with
   | none => none
@@ -261,12 +287,8 @@ def dict2phase (t : PhaseTables) (id : Int) (d : PyTree) : Option PhaseRec :=
     match lookupK (kS "name") it, lookupK (kS "space_group") it, lookupK (kS "point_group") it,
           lookupK (kS "color") it, (lookupK (kS "structure") it).bind getDict with
     | some (.leaf (.str name)), some (.leaf sgv), some (.leaf (.str pgs)), some (.leaf (.str color)), some st =>
-      let sg? : Option (Option Nat) := match sgv with
-        | .str s => if s = noneStr then some none else none
-        | .scalar _ v => if 0 ≤ v then some (some v.toNat) else none
-        | _ => none
-      let pg : Option Str := if pgs = noneStr then none else some pgs
-      match sg?, (lookupK (kS "lattice") st).bind getDict, (lookupK (kS "atoms") st).bind getDict with
+      let pg : Option Str := decodePg pgs
+      match decodeSg sgv, (lookupK (kS "lattice") st).bind getDict, (lookupK (kS "atoms") st).bind getDict with
       | some sg, some lat, some atoms =>
         match mkPhase t sg pg, (lookupK (kS "abcABG") lat).bind getArr, (lookupK (kS "baserot") lat).bind getArr,
               atoms.mapM (fun kv => dict2atom kv.2) with
@@ -317,6 +339,12 @@ def reconcileRec (ni : PhaseRec) (ids : List Int) (pl : List PhaseRec) : Option 
 /-- `np.dstack((phi1, Phi, phi2)).squeeze()` seen from one of the three arrays: size-1 axes disappear -/
 def squeezeShape (sh : List Nat) : List Nat := sh.filter (· != 1)
 
+/-- what is left in `data` after the pops must be property arrays -/
+def propOf (kv : Key × PyTree) : Option PropRec :=
+  match kv with
+  | (Key.s name, .leaf (.arr a)) => some ⟨name, a⟩
+  | _ => none
+
 /-- `dict2crystalmap` on the `crystal_map` dictionary -/
 def dict2crystalmap (t : PhaseTables) (ni : PhaseRec) (d : PyTree) : Option MapRec :=
   match (getDict d).bind (lookupK (kS "data")) |>.bind getDict,
@@ -329,9 +357,7 @@ def dict2crystalmap (t : PhaseTables) (ni : PhaseRec) (d : PyTree) : Option MapR
           lookupK (kS "id") data with
     | some p1, some pp, some p2, some unit, some phd, some pid, some ind, some yv, some xv, some _ =>
       let rest := data.filter fun kv => !reservedData.contains kv.1
-      let props? := rest.mapM fun kv => match kv with
-        | (Key.s name, .leaf (.arr a)) => some (⟨name, a⟩ : PropRec)
-        | _ => none
+      let props? := rest.mapM propOf
       match dict2phases t phd, props? with
       | some pl0, some props =>
         match reconcileRec ni pid.vals (sortRecById pl0) with
